@@ -1,5 +1,5 @@
 """C07 -- requests above max_request_body_size are never processed, on any path."""
-import json
+import json, os
 import vlib
 from props import limits_common as L
 
@@ -13,8 +13,13 @@ RULE = ("cases = one WS connection (a sequence of single-frame messages) or one 
         "bodies / messages with 1..127 leading whitespace bytes whose total straddles the limit (no Content-Length, every "
         "frame boundary incl. whitespace-only first frames); "
         "the implementation's accept/reject decisions and rejection bytes are diffed against the extracted model "
-        "(Model/ReqLimit.v over the regenerated wiring).  distinct non-trivial = distinct canonical result lines that "
-        "contain at least one rejection")
+        "(Model/ReqLimit.v over the regenerated wiring).  Family ws-pipeline-backpressure: per WS entry point and "
+        "(max_request, message_buffer_capacity) pair, one connection whose client does not read while it writes 12+ calls "
+        "with 1 MiB responses (more than the socket buffers hold, so the server's writer blocks and the bounded outgoing "
+        "queue is full), an oversized message (limit+1 / far beyond / two of them / first = control) at several positions, "
+        "ordinary calls and a final barrier call; then everything is read: one -32007 per oversized message, every in-limit "
+        "call answered once, compared as a multiset with the model's run of the bounded-queue connection (conn_step).  "
+        "distinct non-trivial = distinct canonical result lines that contain at least one rejection")
 TRUSTED = [
     "translator tools/translators/limits_wiring.py (regex + brace matching over server.rs, transport/ws.rs, transport/http.rs, "
     "middleware/rpc.rs, core http_helpers.rs): cross-checked on every run by the end-to-end engine with unequal limits on every entry point",
@@ -346,6 +351,268 @@ def run_and_judge(ctx, cases, prop="C07", use_model=True, only_independence=Fals
         ctx.fail("oracle", key, dict(public(case), _meta=case["_meta"]), detail)
 
 
+# ---------------------------------------------------------------- family ws-pipeline-backpressure
+
+PIPE_RESP = 1 << 20          # bytes of one large response
+PIPE_RS = [64 << 20, 16 << 20]
+
+
+def pipeline_fill(buf):
+    """How many 1 MiB responses make the connection's bounded queue full while the peer does not read: what the socket
+    pair absorbs (<= tcp_wmem[2] + the 4 KiB receive buffer; measured here: ~2.5 MiB), one response in the hands of the
+    blocked writer, `buf` in the queue -- doubled, at least 12."""
+    absorb = -(-L.socket_absorb_bytes() // PIPE_RESP)
+    return max(12, 2 * absorb + (buf or 1) + 3)
+
+
+def gen_pipeline(ctx, eps_ws=L.EPS_WS):
+    rng = ctx.rng
+    big = ctx.thorough or ctx.search_mode
+    pairs = [(1000, 1), (4096, 2), (100, 1), (65536, 1)]
+    if big:
+        pairs += [(1000, 2), (4096, 4), (300000, 3), (257, 1), (1000, None)]     # None: default capacity 1024 (never full: control)
+    shapes = ["end", "first", "two", "mid", "b2b"]
+    if big:
+        shapes += ["end-far", "adjacent", "early"]
+    settle_ms = 300
+    next_id = [0]
+
+    def nid():
+        next_id[0] += 1
+        return 2000000 + next_id[0]
+
+    def build(ep, rq, buf, shape, pos=None):
+        k = pipeline_fill(buf)
+        far = max(4 * rq + 3, min(50 * rq, 250_000))
+        msgs, meta = [], []
+
+        def add_gen():
+            i = nid()
+            sg, ln, resp = L.gen_call(i, PIPE_RESP)
+            msgs.append(sg)
+            meta.append({"id": i, "size": ln, "kind": "gen", "plen": None, "resp_len": len(resp), "resp_crc": L.zlib.crc32(resp) & 0xFFFFFFFF})
+
+        def add_small():
+            i = nid()
+            sg, kind, plen = L.small_call(i)
+            msgs.append(sg)
+            meta.append({"id": i, "size": L.segs_len(sg), "kind": "echo", "plen": plen, "resp_len": None, "resp_crc": None,
+                         "resp": L.response_bytes(i, b'"ok"').hex()})
+            return i
+
+        def add_over(sz):
+            i = nid()
+            sg, kind, plen = L.sized_message(i, sz)
+            msgs.append(sg)
+            meta.append({"id": i, "size": sz, "kind": "over-" + kind, "plen": plen})
+
+        settle_at = None
+        if shape in ("end", "end-far", "two", "adjacent", "b2b"):
+            for _ in range(k):
+                add_gen()
+            settle_at = None if shape == "b2b" else len(msgs)
+            add_over(far if shape == "end-far" else rq + 1)
+            if shape == "adjacent":
+                add_over(rq + 2)
+            add_small()
+            if shape == "two":
+                add_over(far)
+                add_small()
+        elif shape == "first":
+            add_over(rq + 1)
+            for _ in range(k):
+                add_gen()
+            add_small()
+        elif shape == "rand":   # 1..3 oversized messages anywhere among the large calls, small calls sprinkled in
+            n_over = rng.randint(1, 3)
+            at = sorted(rng.randint(0, k) for _ in range(n_over))
+            for j in range(k + 1):
+                for _ in range(at.count(j)):
+                    if settle_at is None and rng.random() < 0.8:
+                        settle_at = len(msgs)
+                    add_over(rng.choice([rq + 1, rq + 1, rq + rng.randint(2, 40), far]))
+                    if rng.random() < 0.4:
+                        add_small()
+                if j < k:
+                    add_gen()
+        else:   # "mid" / "early" / explicit position: the oversized message between the large calls
+            h = pos if pos is not None else (k - 3 if shape == "mid" else 2)
+            for _ in range(h):
+                add_gen()
+            settle_at = len(msgs)
+            add_over(rq + 1 if rng.random() < 0.7 else far)
+            for _ in range(k - h):
+                add_gen()
+            add_small()
+        add_small()
+        barrier = add_small()
+        c = {"ep": ep, "t": "ws", "rq": rq, "rs": rng.choice(PIPE_RS), "mode": "pipeline", "buf": buf, "rcvbuf": 4096,
+             "barrier": barrier, "msgs": msgs, "_meta": meta, "_shape": shape if pos is None else "pos%d" % pos}
+        if settle_at is not None:
+            # before the oversized message is written: every earlier handler has run (log) and the produced
+            # responses have had time to fill the socket buffers and the queue
+            c["settle"] = {"at": settle_at, "log": sum(1 for m in meta[:settle_at] if m["kind"] in ("gen", "echo")), "ms": settle_ms}
+        return c
+
+    cases = []
+    for n, ep in enumerate(eps_ws):
+        if big:
+            for rq, buf in pairs:
+                for shape in shapes:
+                    cases.append(build(ep, rq, buf, shape))
+            rq, buf = pairs[n % 4]
+            for pos in range(1, pipeline_fill(buf), 2):
+                cases.append(build(ep, rq, buf, "mid", pos))
+            for _ in range(40):
+                rq, buf = rng.choice(pairs)
+                cases.append(build(ep, rq, buf, "rand"))
+        else:
+            # every shape twice per entry point, the (limit, capacity) pairs rotating; ~13-20 MB per case
+            for j, shape in enumerate(shapes + ["end-far", "adjacent"]):
+                for d in (0, 2):
+                    rq, buf = pairs[(n + j + d) % len(pairs)]
+                    cases.append(build(ep, rq, buf, shape))
+    return cases
+
+
+def pipeline_model_line(c):
+    return "wsp %s %d %d %d %s" % (c["ep"], c["rq"], c["rs"], c["buf"] or 1024, ",".join("%d:%d" % (m["id"], m["size"]) for m in c["_meta"]))
+
+
+def pipeline_canon(c, r):
+    """the replies as a multiset (sorted), same alphabet as `wsp` of modelrun/reqlimit_driver.ml"""
+    if "replies" not in r:
+        return "ERROR " + str(r.get("error"))[:200]
+    out = []
+    for x in r["replies"]:
+        f = L.pipeline_frame(x)
+        if f["kind"] == "marker":
+            out.append("X:" + f["text"][:60])
+            continue
+        fe = L.fixed_error_of(f["bytes"]) if f["bytes"] is not None else None
+        if fe and fe[0] == -32007:
+            out.append("T:" + f["bytes"].hex())
+        else:
+            i = L.frame_numeric_id(f["head"])
+            out.append("D:%d" % i if i is not None else "U:" + f["head"][:40].hex())
+    return " ".join(sorted(out))
+
+
+def pipeline_oracle(c, r):
+    """The property restated on the implementation's output alone: list of (key, detail)."""
+    where = label(c)
+    rq, metas = c["rq"], c["_meta"]
+    if "replies" not in r or r.get("wrote") != len(c["msgs"]):
+        return [("ws-run-incomplete:" + where, "wrote %s of %d messages: %s" % (r.get("wrote"), len(c["msgs"]), str(r)[:300]))]
+    fails = []
+    frames = [L.pipeline_frame(x) for x in r["replies"]]
+    markers = [f["text"] for f in frames if f["kind"] == "marker"]
+    over = [m for m in metas if m["size"] > rq]
+    within = [m for m in metas if m["size"] <= rq]
+    rej, byid, stray = [], {}, []
+    for f in frames:
+        if f["kind"] != "frame":
+            continue
+        fe = L.fixed_error_of(f["bytes"]) if f["bytes"] is not None else None
+        if fe and fe[0] == -32007:
+            rej.append(f)
+            continue
+        i = L.frame_numeric_id(f["head"])
+        if i is None:
+            stray.append(f)
+        else:
+            byid.setdefault(i, []).append(f)
+    desc = "%d oversized of %d messages (max_request %d, message buffer %s, shape %s); arrival: %s" % (
+        len(over), len(metas), rq, c["buf"], c.get("_shape"), pipeline_arrival(c, r))
+    if len(rej) < len(over):
+        fails.append(("oversize-rejection-dropped-under-backpressure:" + where, "%d rejection frames (-32007) for %s" % (len(rej), desc)))
+    elif len(rej) > len(over):
+        fails.append(("oversize-rejection-duplicated:" + where, "%d rejection frames (-32007) for %s" % (len(rej), desc)))
+    for f in rej:
+        if f["bytes"] != L.too_big_request(rq):
+            fails.append(("reject-frame-wrong:" + where, "%r != %r" % (f["bytes"][:200], L.too_big_request(rq))))
+            break
+    for m in within:
+        got = byid.get(m["id"], [])
+        if len(got) == 0:
+            fails.append(("inlimit-request-lost-under-backpressure:" + where, "call %d (%s, %d bytes <= %d) has no reply; %s" % (m["id"], m["kind"], m["size"], rq, desc)))
+        elif len(got) > 1:
+            fails.append(("inlimit-reply-duplicated:" + where, "call %d (%s) answered %d times; %s" % (m["id"], m["kind"], len(got), desc)))
+        else:
+            f = got[0]
+            if m["kind"] == "gen":
+                ok = (f["len"], f["crc"]) == (m["resp_len"], m["resp_crc"])
+            else:
+                ok = f["bytes"] is not None and f["bytes"].hex() == m["resp"]
+            if not ok:
+                fails.append(("inlimit-reply-altered:" + where, "call %d (%s): reply of %d bytes crc %08x, head %r" % (m["id"], m["kind"], f["len"], f["crc"], f["head"][:60])))
+    known = set(m["id"] for m in within)
+    for m in over:
+        if m["id"] in byid:
+            fails.append(("oversize-request-processed:" + where,
+                          "message %d of %d bytes > max_request_body_size %d was answered: head %r" % (m["id"], m["size"], rq, byid[m["id"]][0]["head"][:80])))
+    extra = [i for i in byid if i not in known and i not in set(m["id"] for m in over)]
+    if stray or extra:
+        fails.append(("ws-unsolicited-frame:" + where, "ids %s, frames %s" % (extra[:5], [f["head"][:60] for f in stray[:3]])))
+    log = sorted(r.get("log", []))
+    expected_log = sorted(["gen" if m["kind"] == "gen" else "echo:%d" % m["plen"] for m in within])
+    over_marks = set("echo:%d" % m["plen"] for m in over if m["kind"] == "over-echo") - set(expected_log)
+    if any(x in over_marks for x in log):
+        if not any(k.startswith("oversize-request-processed") for k, _ in fails):
+            fails.append(("oversize-request-processed:" + where, "handler log %s shows the dispatch of an oversized message; %s" % ([x for x in log if x in over_marks][:4], desc)))
+    elif log != expected_log:
+        fails.append(("handler-log-mismatch:" + where, "log %s, expected %s" % (log[:20], expected_log[:20])))
+    if not byid.get(c["barrier"]) or markers:
+        fails.append(("connection-dead-after-oversize:" + where,
+                      "final barrier call %d answered: %s; markers %s; %s" % (c["barrier"], bool(byid.get(c["barrier"])), markers[:3], desc)))
+    return fails
+
+
+def pipeline_arrival(c, r):
+    """compact arrival order: G = large response, R = rejection, e = small reply, ! = marker"""
+    out = []
+    for x in r.get("replies", []):
+        f = L.pipeline_frame(x)
+        if f["kind"] == "marker":
+            out.append("!")
+        elif f["bytes"] is None:
+            out.append("G")
+        else:
+            fe = L.fixed_error_of(f["bytes"])
+            out.append("R" if fe and fe[0] == -32007 else "e")
+    return "".join(out)
+
+
+def run_pipeline(ctx, cases):
+    # few, heavy cases: one process each (the sharding of run_lines is by count)
+    res = L.run_srv([public(c) for c in cases], min_shard=1)
+    model = vlib.run_lines([vlib.model_bin("reqlimit")], [pipeline_model_line(c) for c in cases])
+    for c, r, m in zip(cases, res, model):
+        line = pipeline_canon(c, r)
+        arrival = pipeline_arrival(c, r)
+        ctx.count("ws-pipeline-backpressure:" + c["ep"])
+        ctx.count("ws-pipeline-shape:" + c["_shape"].rstrip("0123456789"))
+        # how far behind unread large responses the (first) rejection arrived: >= 4 here means the queue was full
+        if "R" in arrival:
+            ctx.count("ws-pipeline-rejection-behind-%s-large" % ("%d" % arrival[:arrival.index("R")].count("G") if arrival[:arrival.index("R")].count("G") < 4 else "4+"))
+        if r.get("stalled"):
+            ctx.count("ws-pipeline-writer-stalled")
+        ctx.record(public(c), arrival + " | " + line, nontrivial=("T:" in line))
+        fs = pipeline_oracle(c, r)
+        seen = set()
+        for key, detail in fs:
+            if key in seen:
+                continue
+            seen.add(key)
+            ctx.fail("oracle", key, dict(public(c), _meta=c["_meta"], _shape=c["_shape"]), detail)
+        if line != m:
+            if fs:
+                ctx.count("diff-next-to-oracle-failure")
+            else:
+                ctx.fail("diff", "srvlimits-pipeline-model-differs:" + label(c), dict(public(c), _meta=c["_meta"], _shape=c["_shape"]),
+                         {"impl": line[:600], "model": m[:600]})
+
+
 def run(ctx):
     ctx.engines = ["srvlimits (harness/src/bin/srvlimits.rs: real servers through 5 entry points x {ws,http}) vs "
                    "modelrun/reqlimit_driver.ml over coq/Model/ReqLimit.v + Gen/LimitsWiringGen.v"]
@@ -357,6 +624,9 @@ def run(ctx):
         for rs in [50, rq, 3 * rq + 1, 10 * 1024 * 1024]:
             fixed += [dict(c, rs=rs) for c in cs]
     run_and_judge(ctx, cases + fixed)
+    if os.environ.get("VERIF_SRVLIMITS_BIN"):
+        ctx.note("srvlimits implementation binary overridden: " + L.impl_bin())
+    run_pipeline(ctx, gen_pipeline(ctx))
 
 
 def replay(payload):
@@ -365,6 +635,18 @@ def replay(payload):
     if not (isinstance(case, dict) and "ep" in case):
         print(json.dumps(case)[:2000])
         return 0
+    if case.get("mode") == "pipeline":
+        r = L.run_srv([public(case)])[0]
+        print("case:", json.dumps(public(case))[:1500])
+        print("impl  -> arrival", pipeline_arrival(case, r), "| wrote", r.get("wrote"), "stalled", r.get("stalled"), "| log:", sorted(r.get("log", []))[:30])
+        print("impl  ->", pipeline_canon(case, r)[:1500])
+        if "_meta" not in case:
+            return 0
+        rc, out = vlib.sh([vlib.model_bin("reqlimit")], input=pipeline_model_line(case) + "\n")
+        print("model ->", out.strip()[:1500])
+        fs = pipeline_oracle(case, r)
+        print("oracle:", "holds" if not fs else "FAILS " + "; ".join("%s (%s)" % (k, d[:300]) for k, d in fs))
+        return 1 if fs else 0
     r = L.run_srv([public(case)])[0]
     print("case:", json.dumps(public(case))[:1500])
     print("impl  ->", canon(case, r)[:1500], "| log:", r.get("log"))
